@@ -723,7 +723,8 @@ class LazyStackedTensorDict(TensorDictBase):
                         individual_masks = idx = idx.unbind(0)
                         selected_td_idx = range(len(self.tensordicts))
                         out.append(idx)
-                        split_dim = self.stack_dim - num_single
+                        # the dim of the indexed value the mask produces: the Nones before it count
+                        split_dim = self.stack_dim - num_single + num_none
                         mask_loc = i
                         mask_dim = cursor
                     else:
@@ -763,7 +764,8 @@ class LazyStackedTensorDict(TensorDictBase):
                             # relative_stack_dim = self.stack_dim - cursor - cursor_incr
                             individual_masks = idx = idx.unbind(0)
                             selected_td_idx = range(self.shape[cursor])
-                            split_dim = cursor - num_single
+                            # the dim of the indexed value the mask produces: the Nones before it count
+                            split_dim = cursor - num_single + num_none
                             mask_loc = i
                             mask_dim = cursor
                     elif cursor < self.stack_dim:
